@@ -441,7 +441,10 @@ def pools():
     finally:
         w.close()
     allnames = sorted(set(n for r in data for n in r[2]) | set(n for r in engine for n in r[3]) | set(LEGACY_NAMES))
-    _pools.update(data=data, engine=engine, all=allnames)
+    # names tried on *any* receiver must be private everywhere: public names that are internal only on some
+    # type (mro, gi_frame, co_code, frame.clear, code.replace, ...) stay with their own receivers
+    private = [n for n in allnames if n.startswith("_")] + [n for n in LEGACY_NAMES if not n.startswith("_")]
+    _pools.update(data=data, engine=engine, all=sorted(set(private)))
     return _pools
 
 
